@@ -8,7 +8,9 @@ import (
 	"sort"
 	"strings"
 
+	sdkmath "cosmossdk.io/math"
 	cpctypes "github.com/EscanBE/evermint/v12/x/cpc/types"
+	feemarkettypes "github.com/EscanBE/evermint/v12/x/feemarket/types"
 	codectypes "github.com/cosmos/cosmos-sdk/codec/types"
 	sdk "github.com/cosmos/cosmos-sdk/types"
 	authtypes "github.com/cosmos/cosmos-sdk/x/auth/types"
@@ -379,6 +381,17 @@ func init() {
 		wl := w.wallet(op.W)
 		return []sdk.Msg{&govv1.MsgSubmitProposal{Messages: []*codectypes.Any{any}, InitialDeposit: sdk.NewCoins(sdk.NewInt64Coin(BaseDenom, 10)), Proposer: wl.Bech32(),
 			Metadata: "", Title: "cpc params", Summary: "cpc params " + op.Note}}
+	}
+	msgBuilders["gov_feemarket_params"] = func(w *World, op *Op) []sdk.Msg {
+		// Val = base fee, Tip = min gas price (decimal)
+		np := feemarkettypes.Params{BaseFee: sdkmath.NewIntFromBigInt(relNum(op.Val, w.BaseFee(), "b")), MinGasPrice: sdkmath.LegacyMustNewDecFromStr(op.Tip)}
+		inner := &feemarkettypes.MsgUpdateParams{Authority: govAuthority(), Params: np}
+		any, err := codectypes.NewAnyWithValue(inner)
+		if err != nil {
+			panic(err)
+		}
+		return []sdk.Msg{&govv1.MsgSubmitProposal{Messages: []*codectypes.Any{any}, InitialDeposit: sdk.NewCoins(sdk.NewInt64Coin(BaseDenom, 10)), Proposer: w.wallet(op.W).Bech32(),
+			Title: "feemarket params", Summary: "feemarket params"}}
 	}
 	msgBuilders["gov_vote"] = func(w *World, op *Op) []sdk.Msg {
 		wl := w.wallet(op.W)
